@@ -64,4 +64,13 @@ def nutationNode (T : ℝ) : ℝ :=
 /-- squared Euclidean norm -/
 def normSq (v : ℝ × ℝ × ℝ) : ℝ := v.1 ^ 2 + v.2.1 ^ 2 + v.2.2 ^ 2
 
+/-- the three orbit regimes of `Minor`, as documented: `e < 0.98`, `|e − 1| < 1e-10`, otherwise -/
+inductive Regime where
+  | elliptic | parabolic | nearParabolic
+  deriving DecidableEq
+
+/-- which regime an eccentricity falls in -/
+def regimeOf (e : ℝ) : Regime :=
+  if e < 0.98 then .elliptic else if |e - 1| < 1e-10 then .parabolic else .nearParabolic
+
 end Pymeeus.Spec
